@@ -20,6 +20,8 @@ def main(argv=None):
     r.add_argument('path')
     l = sub.add_parser('list')
     l.add_argument('prop', nargs='?')
+    sm = sub.add_parser('summary')
+    sm.add_argument('prop')
     a = ap.parse_args(argv)
     os.chdir(ROOT)
     sys.path.insert(0, ROOT)
@@ -36,6 +38,20 @@ def main(argv=None):
         return 0
     if a.cmd == 'replay':
         return replay_file(a.path)
+    if a.cmd == 'summary':
+        import glob, collections
+        d = collections.defaultdict(list)
+        for p in sorted(glob.glob(os.path.join(ROOT, 'replays', a.prop + '-*.json'))):
+            j = json.load(open(p))
+            r = j['replay']
+            d[r.get('qualname', j['obligation'])].append(r)
+        for k, v in d.items():
+            r = v[0]
+            shapes = sorted({x.get('shape', '?') for x in v})
+            print(f"{k}: {len(v)} shapes e.g. [{r.get('shape')}] {r.get('clause')} in={json.dumps(r.get('inputs'))[:90]} "
+                  f"real={json.dumps(r.get('real_outcome'))[:50]} spec={json.dumps(r.get('spec_outcome'))[:50]} {r.get('failed_clauses') or ''} {r.get('reason') or ''}")
+            print('      shapes:', ' | '.join(shapes)[:300])
+        return 0
 
 
 def replay_file(path):
